@@ -142,6 +142,14 @@ impl Drop for AliveGuard {
     }
 }
 /// a guard whose Drop makes blocking calls (they run while a Cancel panic unwinds the stack)
+/// a destructor that only yields (a cancellation point that sets the generator's error slot when a cancel is pending)
+struct YieldDrop;
+impl Drop for YieldDrop {
+    fn drop(&mut self) {
+        may::coroutine::yield_now();
+    }
+}
+
 struct BlockingDrop;
 impl Drop for BlockingDrop {
     fn drop(&mut self) {
@@ -180,7 +188,7 @@ fn main() {
     let rounds = envn("MAYV_ROUNDS", 3) as usize;
     run(cfg, move |ctx| {
         may::config().set_pool_capacity(1);
-        let fates = ["fin", "tmo", "panic", "cpark", "race", "cshort", "waitio", "cwaitio", "iotmo", "cio", "cdrop", "urace"];
+        let fates = ["fin", "tmo", "panic", "cpark", "race", "cshort", "waitio", "cwaitio", "iotmo", "cio", "cdrop", "urace", "cpd"];
         let firsts = ["park", "sleep", "recv", "recvt", "sem", "io"];
         // the main thread's fallback values
         touch_locals(MAIN, "main thread");
@@ -259,6 +267,14 @@ fn main() {
                             r.t_park.store(c.now(), SeqCst);
                             r.stage.store(1, SeqCst);
                             let _ = b.park(Some(Duration::from_millis(1)));
+                        }
+                        "cpd" => {
+                            // cancelled while running (the request stays pending), then panics ON ITS OWN; a destructor
+                            // reaches a cancellation point during that unwinding
+                            r.stage.store(1, SeqCst);
+                            spin_until(&r, 2);
+                            let _g = YieldDrop;
+                            panic!("boom");
                         }
                         "cshort" => {
                             r.stage.store(1, SeqCst);
@@ -351,6 +367,14 @@ fn main() {
                         b.unpark();
                     }
                     Exp::Ok
+                }
+                "cpd" => {
+                    while r.stage.load(SeqCst) != 1 {
+                        ctx.yield_now();
+                    }
+                    unsafe { ha.coroutine().cancel() };
+                    r.stage.store(2, SeqCst);
+                    Exp::Panic
                 }
                 "cshort" | "waitio" => {
                     while r.stage.load(SeqCst) != 1 {
